@@ -9,10 +9,14 @@ CONSTANTS MaxHandoffs, Big        \* Big = TRUE: all 24 listing orders for n = 4
 VARIABLES cfg, rank, order, phase, script, s, hand, pushedSig, proposed
 vars == <<cfg, rank, order, phase, script, s, hand, pushedSig, proposed>>
 
-Cfgs == { [n |-> 2, m |-> 1, holder |-> <<1, 2>>], [n |-> 2, m |-> 2, holder |-> <<1, 2>>],
-          [n |-> 3, m |-> 2, holder |-> <<1, 2, 3>>], [n |-> 3, m |-> 3, holder |-> <<1, 2, 3>>],
-          [n |-> 4, m |-> 2, holder |-> <<1, 2, 3, 4>>],
-          [n |-> 3, m |-> 2, holder |-> <<1, 1, 2>>] }          \* two wallets of the same cosigner
+Shapes == { [n |-> 2, m |-> 1, holder |-> <<1, 2>>], [n |-> 2, m |-> 2, holder |-> <<1, 2>>],
+            [n |-> 3, m |-> 2, holder |-> <<1, 2, 3>>], [n |-> 3, m |-> 3, holder |-> <<1, 2, 3>>],
+            [n |-> 4, m |-> 2, holder |-> <<1, 2, 3, 4>>],
+            [n |-> 3, m |-> 2, holder |-> <<1, 1, 2>>] }          \* two wallets of the same cosigner
+\* wallet settings: anti-fee-sniping alternates over the wallets (no rule of the property semantics reads them: what a
+\* wallet imports does not depend on its settings)
+Cfgs == { [n |-> c.n, m |-> c.m, holder |-> c.holder, afs |-> [w \in 1..Len(c.holder) |-> w % 2 = 1], height |-> <<1, 0, 0, 0>>] :
+          c \in Shapes }
 Id(n) == [i \in 1..n |-> i]
 Rv(n) == [i \in 1..n |-> n + 1 - i]
 PermSet(n) == IF n <= 3 \/ Big THEN Perms(n)
